@@ -4,6 +4,7 @@ import (
 	"bytes"
 	"errors"
 	"fmt"
+	"io"
 	"math/rand/v2"
 	"reflect"
 	"unsafe"
@@ -82,7 +83,7 @@ func genHistory(c *core.Ctx, i int, maxLen int) *history {
 		h.sc = cases[i%len(cases)]
 	}
 	sweep := -1
-	if j := i - 2*len(cases); j >= 0 && j < len(sizeSweep) {
+	if j := i - 2*len(cases); j >= 0 && j < len(sizeSweep) && maxLen > 100 {
 		// incompressible records whose size walks across buffer-size boundaries
 		sweep = sizeSweep[j]
 		for _, sc := range cases {
@@ -355,14 +356,33 @@ func (w *failingWriter) Write(p []byte) (int, error) {
 	return w.buf.Write(p)
 }
 
+// richFailingWriter additionally implements io.ByteWriter and io.StringWriter; each of those calls counts as
+// a write and can be the failing one (non-sticky: only the k-th write fails).
+type richFailingWriter struct{ failingWriter }
+
+func (w *richFailingWriter) WriteByte(b byte) error {
+	_, err := w.failingWriter.Write([]byte{b})
+	return err
+}
+
+func (w *richFailingWriter) WriteString(s string) (int, error) { return w.failingWriter.Write([]byte(s)) }
+
 type callResult struct {
 	err     error
 	pan     any
 	writeNo int // writer's write counter after the call
 }
 
+// w2 returns the failingWriter whose counters the run must consult (the one embedded in a rich writer, if any).
+func w2(sink io.Writer, w *failingWriter) *failingWriter {
+	if rw, ok := sink.(*richFailingWriter); ok {
+		return &rw.failingWriter
+	}
+	return w
+}
+
 // runEncoderHistory drives the history against w; stops after the first failing call.
-func runEncoderHistory(h *history, w *failingWriter) (res []callResult) {
+func runEncoderHistory(h *history, w *failingWriter, sink io.Writer) (res []callResult) {
 	var sess lib.Session
 	call := func(fn func() error) (stop bool) {
 		var cr callResult
@@ -376,7 +396,7 @@ func runEncoderHistory(h *history, w *failingWriter) (res []callResult) {
 	}
 	if call(func() error {
 		var err error
-		sess, err = h.sc.NewSession(w, h.comp, h.bs)
+		sess, err = h.sc.NewSession(sink, h.comp, h.bs)
 		return err
 	}) {
 		return
@@ -396,7 +416,7 @@ func runEncoderHistory(h *history, w *failingWriter) (res []callResult) {
 }
 
 // runFileWriterHistory drives FileWriter.WriteHeader/WriteBlock directly.
-func runFileWriterHistory(h *history, schemaJSON []byte, w *failingWriter) (res []callResult) {
+func runFileWriterHistory(h *history, schemaJSON []byte, w *failingWriter, sink io.Writer) (res []callResult) {
 	var fw *avro.FileWriter
 	call := func(fn func() error) (stop bool) {
 		var cr callResult
@@ -414,7 +434,7 @@ func runFileWriterHistory(h *history, schemaJSON []byte, w *failingWriter) (res 
 		res = append(res, callResult{err: err})
 		return
 	}
-	if call(func() error { return fw.WriteHeader(w) }) {
+	if call(func() error { return fw.WriteHeader(sink) }) {
 		return
 	}
 	var block []byte
@@ -422,7 +442,7 @@ func runFileWriterHistory(h *history, schemaJSON []byte, w *failingWriter) (res 
 	for _, op := range h.ops {
 		if op.flush {
 			blk, cnt := block, n
-			if call(func() error { return fw.WriteBlock(w, cnt, blk) }) {
+			if call(func() error { return fw.WriteBlock(sink, cnt, blk) }) {
 				return
 			}
 			block, n = nil, 0
@@ -500,11 +520,22 @@ func runC16(c *core.Ctx, i int) {
 		}
 	}
 	c.Journal(c.CurCase(), kind+" "+h.desc)
+	rich := i%4 == 1 // a writer that also offers WriteByte / WriteString
 	run := func(w *failingWriter) []callResult {
-		if direct {
-			return runFileWriterHistory(h, schemaJSON, w)
+		var sink io.Writer = w
+		if rich {
+			rw := &richFailingWriter{}
+			rw.failingWriter = *w
+			defer func() { *w = rw.failingWriter }()
+			sink = rw
 		}
-		return runEncoderHistory(h, w)
+		if direct {
+			return runFileWriterHistory(h, schemaJSON, w2(sink, w), sink)
+		}
+		return runEncoderHistory(h, w2(sink, w), sink)
+	}
+	if rich {
+		kind += "+ByteWriter"
 	}
 	// fault-free run
 	w0 := &failingWriter{}
